@@ -208,6 +208,7 @@ type Shard struct {
 	Payable   map[string]int // address -> 0 payable, 1 non-payable, 2 oracle error; default payable
 	notifier  *notifier
 	log       []cfgEvent
+	accepted  map[string]map[string]uint64 // the last schedule that satisfies the documented acceptance rule
 
 	tracking   bool // dependency counting / fault injection (off in the concurrency check)
 	concurrent bool
@@ -229,8 +230,12 @@ func (n *notifier) RegisterNotifyHandler(h vmcommon.EpochSubscriberHandler) {
 	n.handlers = append(n.handlers, h)
 	e := n.epoch
 	n.mu.Unlock()
-	h.EpochConfirmed(e, 0)
+	h.EpochConfirmed(e, epochTimestamp(e))
 }
+
+// epochTimestamp is the header timestamp that accompanies an epoch notification: later epochs have later timestamps,
+// so a regression (rollback to a block of an earlier epoch) comes with a SMALLER timestamp, as in a node.
+func epochTimestamp(e uint32) uint64     { return 1_600_000_000 + uint64(e)*14_400 }
 func (n *notifier) IsInterfaceNil() bool { return n == nil }
 func (n *notifier) confirm(e uint32) {
 	n.mu.Lock()
@@ -238,7 +243,7 @@ func (n *notifier) confirm(e uint32) {
 	hs := append([]vmcommon.EpochSubscriberHandler{}, n.handlers...)
 	n.mu.Unlock()
 	for _, h := range hs {
-		h.EpochConfirmed(e, 0)
+		h.EpochConfirmed(e, epochTimestamp(e))
 	}
 }
 
@@ -401,6 +406,9 @@ func NewShard(cfg ShardConfig) (*Shard, error) {
 
 func (s *Shard) GasScheduleChange(g map[string]map[string]uint64) {
 	s.log = append(s.log, cfgEvent{Gas: copyGas(g)})
+	if GasValid(g) {
+		s.accepted = copyGas(g)
+	}
 	s.Factory.GasScheduleChange(copyGas(g))
 }
 
@@ -429,6 +437,38 @@ func (s *Shard) Clone() *Shard {
 	}
 	for k, v := range s.Payable {
 		c.Payable[k] = v
+	}
+	return c
+}
+
+// CloneFresh builds a shard that was never reconfigured: its container is CONSTRUCTED with the schedule now in force
+// (the last accepted one) and told only the last confirmed epoch - "equal configuration" reached by another road.
+func (s *Shard) CloneFresh() *Shard {
+	cfg := s.Cfg
+	if s.accepted != nil {
+		cfg.Gas = copyGas(s.accepted)
+	}
+	c, err := NewShard(cfg)
+	if err != nil {
+		panic(err)
+	}
+	c.Cfg = s.Cfg
+	if s.notifier.epoch != 0 {
+		c.ConfirmEpoch(s.notifier.epoch)
+	}
+	for k, a := range s.Accounts {
+		c.Accounts[k] = a.clone(c)
+	}
+	for k, v := range s.Payable {
+		c.Payable[k] = v
+	}
+	return c
+}
+
+func (w *World) CloneFresh() *World {
+	c := &World{}
+	for _, s := range w.Shards {
+		c.Shards = append(c.Shards, s.CloneFresh())
 	}
 	return c
 }
